@@ -1075,6 +1075,9 @@ class ProgramGen:
         members["kind"] = se.IntEnum(HVKind, se.U8, strict=True)
         flag_spec = members["flags"]
         for i, fl in enumerate(rng.sample(list(HVFlags), rng.randint(1, 3))):
+            if rng.random() < 0.35:
+                # a member that is present when ANY of several bits is set
+                fl = int(fl) | int(rng.choice(list(HVFlags)))
             members[f"opt{i}"] = se.OptionalFlagged("flags", flag_spec, fl, self.make(depth, allow_greedy=False, no_none=True))
         members["sw"] = se.ContextSwitch(_ctx_kind, {
             HVKind.A: self.make(depth, allow_greedy=False), HVKind.B: self.make(depth, allow_greedy=False),
